@@ -3,9 +3,11 @@
    nat stay extracted inductives. No Extract Constant / Extract Inductive of our own. *)
 From Coq Require Extraction.
 From Coq Require Import ExtrOcamlBasic.
-From RN Require Import Base.Bytes Model.Edits Model.Serde.
+From RN Require Import Base.Bytes Model.Edits Model.Serde Model.StyleDef Model.CaseModel Gen.GenStyles Gen.GenAcronyms.
 
 Extraction Language OCaml.
 Extraction "model.ml"
   apply_edits_rev spec_splice wf_edits
-  enc_plan dec_plan.
+  enc_plan dec_plan
+  parse_to_tokens tokens to_style detect_style variant_map_core variant_map_scanner vmap_to_amap
+  gen_acronyms gen_all_styles gen_default_styles gen_vm_core_default gen_vm_scanner_default.
